@@ -586,6 +586,8 @@ def build_T14s(tree):
                           for t in (n.targets if isinstance(n, ast.Assign) else [n.target])
                           for leaf in ast.walk(t) if isinstance(leaf, ast.Name)})
     nested = sorted(n.name for n in cnode.body if isinstance(n, (ast.ClassDef, ast.AsyncFunctionDef)))
+    it = [n for n in cnode.body if isinstance(n, ast.FunctionDef) and n.name == '__iter__']
+    iter_ok = len(it) == 1 and [_norm(x) for x in strip_doc(it[0].body)] == ['returnsuper().__iter__()']
     out = [
         lean_table('csInstanceAttrs', 'List String', [f'"{a}"' for a in sorted(attrs)],
                    doc='every attribute a method of ContentSequence assigns on `self` (the list itself lives in the pydicom base class)'),
@@ -595,6 +597,9 @@ def build_T14s(tree):
                    doc='base classes of ContentSequence as written'),
         lean_table('csClassLevelNames', 'List String', [f'"{a}"' for a in class_attrs + nested],
                    doc='names bound in the class body other than by `def` (a hook assigned as an attribute, a nested class)'),
+        '/-- the one override that is not a program of T14p: `__iter__` is exactly `return super().__iter__()` (iteration = the\n'
+        'stored list, which `get_nodes`, `extend(self)`, `list(seq)` go through) -/\n'
+        f'def csIterDelegates : Bool := {"true" if iter_ok else "false"}',
     ]
     return '\n\n'.join(out), hashlib.sha256(''.join(shas).encode()).hexdigest()
 
